@@ -1,8 +1,10 @@
 """cg.py — coverage-guided corpus for the correspondence check (DESIGN.md section 15).
 
-libFuzzer (cargo-fuzz, nightly toolchain, no sanitizer) drives the harness's own `dispatch` in-process; every input
-that reaches new coverage of tls-parser is kept. Nothing is decided by the fuzzer: the kept inputs are decoded into
-op lines and replayed through harness *and* model driver by the property checks, under each property's projection.
+libFuzzer (cargo-fuzz, nightly toolchain, no sanitizer) drives the harness's own `dispatch` in-process *and* the Lean
+model driver linked into the same process (DriverFFI.lean, shim.c); every input that reaches new coverage of tls-parser,
+panics, or on which implementation and model answer differently is kept. Nothing is decided by the fuzzer: the kept
+inputs are decoded into op lines and replayed through harness and model driver by the property checks, under each
+property's projection and oracles.
 Fuzzing here only chooses inputs for the model-vs-code validation (and searches for failing inputs after a change).
 
 * corpus/cg/ops.hex   committed corpus grown on the unchanged tree (one libFuzzer input per line, hex)
@@ -108,7 +110,10 @@ def encode(line):
 
 
 def build():
-    """build the fuzz target against /repo's working tree (raises core.BuildError)"""
+    """build the fuzz target against /repo's working tree, with the Lean model linked in (raises core.BuildError)"""
+    ok, out = core.build_lean(['DriverLib:static', 'TlsModel:static'])
+    if not ok:
+        raise core.BuildError('lake build of the model libraries failed:\n' + out[-3000:])
     env = dict(core.ENV, RUSTFLAGS='--cfg tls_parser_verif')
     r = subprocess.run(['cargo', '+nightly', 'fuzz', 'build', '-s', 'none', '--target-dir', TARGET], cwd=CG, env=env,
                        capture_output=True, text=True)
